@@ -23,6 +23,7 @@ import (
 	"io"
 	"net"
 	"net/http"
+	"runtime/debug"
 	"sort"
 	"strings"
 	"testing"
@@ -80,8 +81,18 @@ func genHTTPCfg(t *rapid.T, op *LOp) {
 func genOps(t *rapid.T, n int, pred map[string]string, httpRemovals *int) []LOp {
 	var ops []LOp
 	for i := 0; i < n; i++ {
-		op := LOp{Name: rapid.SampledFrom(namesA).Draw(t, "name")}
-		switch rapid.SampledFrom([]string{"add", "add", "add", "edit", "edit", "remove", "remove"}).Draw(t, "op") {
+		what := rapid.SampledFrom([]string{"add", "add", "add", "edit", "edit", "remove", "remove"}).Draw(t, "op")
+		pool := append([]string(nil), namesA...)
+		if what != "add" {
+			// edits and removals mostly hit names that (are predicted to) exist
+			for _, n := range namesA {
+				if _, ok := pred[n]; ok {
+					pool = append(pool, n, n)
+				}
+			}
+		}
+		op := LOp{Name: rapid.SampledFrom(pool).Draw(t, "name")}
+		switch what {
 		case "add":
 			op.Op = "add"
 			op.Kind = rapid.SampledFrom([]string{"http", "http", "http", "smb", "ext", "svc"}).Draw(t, "kind")
@@ -250,6 +261,20 @@ func (w *worldA) post(port string, p probe) (int, error) {
 	io.Copy(io.Discard, resp.Body)
 	resp.Body.Close()
 	return resp.StatusCode, nil
+}
+
+// operate dispatches one operator package; a panic inside the teamserver (which in the
+// real handleRequest goroutine ends the process) becomes a violation named after the
+// operation and the innermost teamserver function.
+func (w *worldA) operate(what string, sub int, info map[string]string) (v *core.Violation) {
+	defer func() {
+		if r := recover(); r != nil {
+			st := string(debug.Stack())
+			v = core.V("listener|"+what+"|panic|"+core.HavocFrame(st), "operator %s package %v makes the teamserver panic (in handleRequest's goroutine this ends the process): %v\n%s", what, info, r, st)
+		}
+	}()
+	w.fx.Operator("op", packager.Type.Listener.Type, sub, info)
+	return nil
 }
 
 func kindOfListener(l *server.Listener) string {
@@ -456,7 +481,9 @@ func checkA(c CaseA) *core.Violation {
 				w.svc.ListenerReply = op.SvcReply
 			}
 			from := len(w.svc.Received())
-			fx.Operator("op", packager.Type.Listener.Type, packager.Type.Listener.Add, info)
+			if v := w.operate("add", packager.Type.Listener.Add, info); v != nil {
+				return v
+			}
 			if op.Kind == "svc" {
 				// DispatchEvent wrote the ListenerStart request (if it forwards one) to the script's
 				// socket before it returned.  Barrier 1: its reply travels behind that request, and
@@ -551,7 +578,13 @@ func checkA(c CaseA) *core.Violation {
 				info = map[string]string{"Name": op.Name, "Protocol": svcKind, "ClientUser": "op", "Host": "127.0.0.1"}
 				label = "edit-svc"
 			}
-			fx.Operator("op", packager.Type.Listener.Type, packager.Type.Listener.Edit, info)
+			opWhat := "edit"
+			if strings.HasPrefix(label, "edit-stale") {
+				opWhat = "edit-stale-dialog" // one defect whatever the listener has become
+			}
+			if v := w.operate(opWhat, packager.Type.Listener.Edit, info); v != nil {
+				return v
+			}
 			if !svcx.Quiesce() {
 				return inconclusive("teamserver goroutines did not come to rest after edit")
 			}
@@ -594,7 +627,9 @@ func checkA(c CaseA) *core.Violation {
 			if me != nil {
 				label = "remove-" + me.kind
 			}
-			fx.Operator("op", packager.Type.Listener.Type, packager.Type.Listener.Remove, map[string]string{"Name": op.Name})
+			if v := w.operate("remove", packager.Type.Listener.Remove, map[string]string{"Name": op.Name}); v != nil {
+				return v
+			}
 			if !svcx.Quiesce() {
 				return inconclusive("teamserver goroutines did not come to rest after remove")
 			}
